@@ -205,6 +205,9 @@ func (commander *Commander) SaveMeta(ctx context.Context, parameters Parameters,
 		default:
 			panic(errors.Errorf("unknown target type '%s'", targetType))
 		}
+		if parameters.IdempotencyKey != "" {
+			log = log.WithIdempotencyKey(parameters.IdempotencyKey)
+		}
 
 		return executionContext.AppendLog(ctx, log)
 	})
@@ -311,6 +314,9 @@ func (commander *Commander) DeleteMetadata(ctx context.Context, parameters Param
 			})
 		default:
 			panic(errors.Errorf("unknown target type '%s'", targetType))
+		}
+		if parameters.IdempotencyKey != "" {
+			log = log.WithIdempotencyKey(parameters.IdempotencyKey)
 		}
 
 		return executionContext.AppendLog(ctx, log)
